@@ -97,7 +97,8 @@ def _body(ops):
 # non-unibi bank balances = balances of pseudo accounts 20+id (tf denom), 30+id (erc20/ORC), 29 / 39 = 10^6 - bank supply.
 _TOK = {"u": 4, "d": 8, "e": 14}
 _BASE = {"u": 0, "d": 20, "e": 30}
-_FAIL_AMT = 1000000
+_FAIL_AMT = 1000000                 # no holder but W owns that much of anything
+_FAIL_AMT_W_UNIBI = 100000000000    # 10^11 > W's 2*10^10 unibi; the generator's failing amount is 10^12
 
 
 def _wasm_exec(msgs, funds):
@@ -113,7 +114,8 @@ def _wasm_exec(msgs, funds):
         if m[0] != "send":
             return None                                     # MsgConvertCoinToEvm / MsgCreateFunToken: refused inside an EVM tx
         tok, amt, to = m[1], m[2], m[3]
-        if amt <= 0 or amt >= _FAIL_AMT:
+        # the bank refuses iff the sender's balance is smaller: W is funded with 2*10^10 unibi (CreateFunToken fee), < 10^6 of the rest
+        if amt <= 0 or amt >= (_FAIL_AMT_W_UNIBI if tok == "u" else _FAIL_AMT):
             return None
         body.append(["bs", _BASE[tok] + 6, _BASE[tok] + to, amt])
         if tok != "u":
